@@ -352,6 +352,15 @@ theorem keyLen_le (sp : SuiteSpec) (hwf : specWf sp = true) : sp.keyLen ≤ 32 :
   cases b <;> simp only [specWf, Bool.and_eq_true, Bool.or_eq_true, beq_iff_eq] at hwf <;> (try cases hwf) <;>
     simp only <;> omega
 
+/-- a suite valid for the version has a record protection in it -/
+theorem cls12_exists (pv : ProtocolVersion) (etm : Bool) (sp : SuiteSpec) (hwf : specWf sp = true) (hv : ValidFor sp pv) :
+    ∃ cls, cls12 pv etm sp = some cls := by
+  obtain ⟨b, kl, hs, tg⟩ := sp
+  cases b <;> simp only [specWf, Bool.false_eq_true] at hwf <;>
+    first
+      | exact ⟨_, rfl⟩
+      | (have := hv (.inl rfl); subst this; exact ⟨_, rfl⟩)
+
 theorem ivFree_of_cls12 (pv : ProtocolVersion) (etm : Bool) (sp : SuiteSpec) (cls : CipherClass)
     (hcls : cls12 pv etm sp = some cls) (h0 : ¬ 0 < recordIvLength pv sp.bulk) : IvFree cls := by
   obtain ⟨b, kl, hs, tg⟩ := sp
